@@ -1,7 +1,6 @@
 package main
 
 import (
-	"bytes"
 	"context"
 	"fmt"
 	"sort"
@@ -139,7 +138,6 @@ type target interface {
 	Get(id uint64) *view
 	GetByKey(key string) *view
 	Loadable(id uint64) bool
-	HasTerm() bool // whether served views carry the raft term
 	Close()
 	// cheap reads for the concurrent readers (views without the Full / Range renderings)
 	ScanLite(start, end string, limit int) ([]view, int)
@@ -351,8 +349,7 @@ func (t *lightTarget) Loadable(id uint64) bool {
 	return ok && err == nil
 }
 
-func (t *lightTarget) HasTerm() bool { return true }
-func (t *lightTarget) Close()        { t.cancel() }
+func (t *lightTarget) Close() { t.cancel() }
 
 // ---------------------------------------------------------------------------------------------
 // full harness: a real bootstrapped server; heartbeats through GetRaftCluster().HandleRegionHeartbeat,
@@ -422,15 +419,24 @@ func newFull(m *srv.Member, stores int) (*fullTarget, error) {
 	return &fullTarget{m: m, rc: rc, kv: k, st: st, ids: map[uint64]bool{2: true}, ctx: ctx}, nil
 }
 
-func viewOfResp(meta *metapb.Region, leader *metapb.Peer, pending []*metapb.Peer, down []*pdpb.PeerStats) view {
-	return mkView(meta, leader, 0, fmt.Sprintf("pending=%v down=%v", peerIDs(pending), downIDs(down)))
+func viewOfResp(meta *metapb.Region, leader *metapb.Peer, pending []*metapb.Peer, down []*pdpb.PeerStats, term uint64) view {
+	return mkView(meta, leader, term, fmt.Sprintf("pending=%v down=%v", peerIDs(pending), downIDs(down)))
+}
+
+// termOf reads the raft term PD holds for a region: the gRPC responses do not carry it, so the full
+// harness looks it up on the cluster object (only used in quiescent states of the sequential judge).
+func (t *fullTarget) termOf(id uint64) uint64 {
+	if r := t.rc.GetRegion(id); r != nil {
+		return r.GetTerm()
+	}
+	return 0
 }
 
 // viewOfSnapWire renders what a snapshot must look like through the gRPC responses.
 func viewOfSnapWire(s *world.Snapshot) view {
 	req := s.Request()
 	i := core.RegionFromHeartbeat(req)
-	return viewOfResp(i.GetMeta(), i.GetLeader(), i.GetPendingPeers(), i.GetDownPeers())
+	return viewOfResp(i.GetMeta(), i.GetLeader(), i.GetPendingPeers(), i.GetDownPeers(), i.GetTerm())
 }
 
 func (t *fullTarget) Deliver(s *world.Snapshot) error {
@@ -450,7 +456,7 @@ func (t *fullTarget) Observe() *obs {
 			o.ScanNil++
 			continue
 		}
-		o.Scan = append(o.Scan, viewOfResp(r.GetRegion(), r.GetLeader(), r.GetPendingPeers(), r.GetDownPeers()))
+		o.Scan = append(o.Scan, viewOfResp(r.GetRegion(), r.GetLeader(), r.GetPendingPeers(), r.GetDownPeers(), t.termOf(r.GetRegion().GetId())))
 		t.addID(r.GetRegion().GetId())
 	}
 	for _, id := range t.idList() {
@@ -472,7 +478,7 @@ func (t *fullTarget) Get(id uint64) *view {
 	if resp.GetRegion() == nil {
 		return nil
 	}
-	v := viewOfResp(resp.GetRegion(), resp.GetLeader(), resp.GetPendingPeers(), resp.GetDownPeers())
+	v := viewOfResp(resp.GetRegion(), resp.GetLeader(), resp.GetPendingPeers(), resp.GetDownPeers(), t.termOf(resp.GetRegion().GetId()))
 	return &v
 }
 
@@ -485,7 +491,7 @@ func (t *fullTarget) GetByKey(key string) *view {
 	if resp.GetRegion() == nil {
 		return nil
 	}
-	v := viewOfResp(resp.GetRegion(), resp.GetLeader(), resp.GetPendingPeers(), resp.GetDownPeers())
+	v := viewOfResp(resp.GetRegion(), resp.GetLeader(), resp.GetPendingPeers(), resp.GetDownPeers(), t.termOf(resp.GetRegion().GetId()))
 	return &v
 }
 
@@ -514,7 +520,4 @@ func (t *fullTarget) Healthy() error {
 	return nil
 }
 
-func (t *fullTarget) HasTerm() bool { return false }
-func (t *fullTarget) Close()        {}
-
-func keyLess(a, b string) bool { return bytes.Compare([]byte(a), []byte(b)) < 0 }
+func (t *fullTarget) Close() {}
